@@ -500,6 +500,83 @@ fn history_case_b(ctor: usize, c0: i64, seq: &[usize], e: &mut Eng, bystander: b
     n as u64
 }
 
+/// The same adapter with the library's own `Time` as its time getter (a `Reference<Time>` whose
+/// target the harness moves): which type provides the clock must not matter.
+fn history_time_clock(e: &mut Eng) {
+    #[derive(Clone, Copy, Debug)]
+    enum X {
+        Clock(i64),
+        SetDelta(i64),
+        SetTime(i64),
+        Get,
+    }
+    let ops = [X::Clock(5), X::Clock(-3), X::Clock(1_000), X::SetDelta(-7), X::SetDelta(100), X::SetTime(50), X::SetTime(0), X::Get];
+    for ctor in 0..4usize {
+        for &c0 in &[0i64, 17, -5] {
+            let total = ipow(ops.len() as u64, 4);
+            let mut idx = [0usize; 4];
+            for code in 0..total {
+                decode(code, ops.len() as u64, &mut idx);
+                e.executions += 1;
+                e.states += 1;
+                e.transitions += 5;
+                e.nontrivial += 1;
+                let seq: Vec<X> = idx.iter().map(|&i| ops[i]).collect();
+                let r = guard(|| -> Result<(), String> {
+                    let mut hist = Echo { updates: 0 };
+                    let clock = rc(Time(c0));
+                    let mut g: GetterFromHistory<i64, Time, E> = match ctor {
+                        0 => GetterFromHistory::new_no_delta(&mut hist, rf(&clock)),
+                        1 => GetterFromHistory::new_start_at_zero(&mut hist, rf(&clock)).map_err(|er| format!("{:?}", er))?,
+                        2 => GetterFromHistory::new_custom_start(&mut hist, rf(&clock), Time(30)).map_err(|er| format!("{:?}", er))?,
+                        _ => GetterFromHistory::new_custom_delta(&mut hist, rf(&clock), Time(-12)),
+                    };
+                    let mut now = c0;
+                    let mut offset: i64 = match ctor {
+                        0 => 0,
+                        1 => -c0,
+                        2 => 30 - c0,
+                        _ => -12,
+                    };
+                    let mut steps: Vec<X> = vec![X::Get];
+                    steps.extend(seq.iter().cloned());
+                    steps.push(X::Get);
+                    for (k, op) in steps.iter().enumerate() {
+                        match *op {
+                            X::Clock(d) => {
+                                now += d;
+                                *clock.borrow_mut() = Time(now);
+                            }
+                            X::SetDelta(d) => {
+                                g.set_delta(Time(d));
+                                offset = d;
+                            }
+                            X::SetTime(t) => {
+                                g.set_time(Time(t)).map_err(|er| format!("set_time failed: {:?}", er))?;
+                                offset = t - now;
+                            }
+                            X::Get => {
+                                let got = g.get().map_err(|er| format!("get failed: {:?}", er))?;
+                                let q = now + offset;
+                                let want = if q < 0 { None } else { Some(Datum::new(Time(now), q)) };
+                                if got != want {
+                                    return Err(format!("step {} ({:?}): get() = {:?} but now = {} and the offset is {}, so it must be {:?}", k, op, got, now, offset, want));
+                                }
+                            }
+                        }
+                    }
+                    Ok(())
+                });
+                match r {
+                    Ok(Ok(())) => e.outcome(h64(&(ctor, c0, code))),
+                    Ok(Err(m)) => e.violation("history-adapter:time-as-clock", 4, || format!("{} with `Time` itself as the time getter, clock {} then {:?}: {}", CTORS[ctor], c0, seq, m)),
+                    Err(m) => e.violation("history-adapter:panic", 4, || format!("{} with `Time` as the time getter, clock {} then {:?} panicked: {}", CTORS[ctor], c0, seq, m)),
+                }
+            }
+        }
+    }
+}
+
 /// Extreme clock values: every step whose specified arithmetic (t - now, now + offset) fits in i64
 /// must work; steps that would overflow by specification end the case.
 fn history_extreme_clocks(e: &mut Eng) {
@@ -738,6 +815,8 @@ pub fn run(ctx: &Ctx) -> Vec<Eng> {
         }
         e2.bounds.push_str(&format!("; plus periodic sequences: every primitive word of length <= {} over the 11 operations repeated to {} operations, with at most one deviation ({} sequences x 4 constructors)", maxp, ph, periodic_count(HOPS.len(), maxp, ph)));
     }
+    history_time_clock(&mut e2);
+    e2.bounds.push_str("; plus the library's own `Time` as the time getter: 4 constructors x 3 construction clocks x all 8^4 sequences over {clock += 5/-3/1000, set_delta(-7/100), set_time(50/0), get}");
     history_extreme_clocks(&mut e2);
     e2.bounds.push_str("; plus clocks at i64::MIN, MIN+1, -1, MAX-1, MAX x 2 constructors x all 7^3 sequences of set_time/set_delta/get (steps that overflow by specification end the case)");
     history_case(4, 3, &[], &mut e2);
